@@ -1326,6 +1326,150 @@ fn bytes_case(line: &str) -> String {
     )
 }
 
+// ---- FileReadWriteVolatile for File (and for &mut File): every method against POSIX semantics -------------
+fn ft_call<F: FileReadWriteVolatile>(f: &mut F, method: &str, sl: &[FileVolatileSlice], off: u64) -> io::Result<usize> {
+    let first = if sl.is_empty() { unsafe { FileVolatileSlice::from_raw_ptr(std::ptr::NonNull::<u8>::dangling().as_ptr(), 0) } } else { sl[0] };
+    match method {
+        "read_volatile" => f.read_volatile(first),
+        "read_vectored_volatile" => f.read_vectored_volatile(sl),
+        "read_exact_volatile" => f.read_exact_volatile(first).map(|_| 0),
+        "write_volatile" => f.write_volatile(first),
+        "write_vectored_volatile" => f.write_vectored_volatile(sl),
+        "write_all_volatile" => f.write_all_volatile(first).map(|_| 0),
+        "read_at_volatile" => f.read_at_volatile(first, off),
+        "read_vectored_at_volatile" => f.read_vectored_at_volatile(sl, off),
+        "read_exact_at_volatile" => f.read_exact_at_volatile(first, off).map(|_| 0),
+        "write_at_volatile" => f.write_at_volatile(first, off),
+        "write_vectored_at_volatile" => f.write_vectored_at_volatile(sl, off),
+        "write_all_at_volatile" => f.write_all_at_volatile(first, off).map(|_| 0),
+        m => panic!("ft method {}", m),
+    }
+}
+fn ft_case(line: &str) -> String {
+    let seed = num(kv(line, "seed"));
+    let method = kv(line, "method");
+    let content = unhex(kv(line, "content"));
+    let pos = num(kv(line, "pos"));
+    let off = num(kv(line, "off"));
+    let lens: Vec<usize> = kv(line, "slices").split(',').filter(|x| !x.is_empty()).map(|x| num(x) as usize).collect();
+    let mut file = memfd(&content);
+    file.seek(SeekFrom::Start(pos)).unwrap();
+    // one arena, slices 8 bytes apart, pattern filled
+    let total: usize = lens.iter().sum::<usize>() + 8 * (lens.len() + 1);
+    let mut arena: Vec<u8> = (0..total as u64).map(|o| pat(seed, BBASE + o)).collect();
+    let mut offs = Vec::new();
+    let mut o = 8usize;
+    for l in &lens {
+        offs.push(o);
+        o += l + 8;
+    }
+    let sl: Vec<FileVolatileSlice> = offs.iter().zip(&lens).map(|(o, l)| unsafe { FileVolatileSlice::from_raw_ptr(arena.as_mut_ptr().add(*o), *l) }).collect();
+    let r = if kv(line, "wrap") == "1" {
+        let mut fr: &mut File = &mut file;
+        ft_call(&mut fr, method, &sl, off)
+    } else {
+        ft_call(&mut file, method, &sl, off)
+    };
+    let res = match r {
+        Ok(n) => format!("[\"ok\",{}]", n),
+        Err(e) => er(&io_err(&e)),
+    };
+    let newpos = file.stream_position().unwrap();
+    let fc = file_content(&mut file, 0);
+    let slices: Vec<String> = offs.iter().zip(&lens).map(|(o, l)| format!("\"{}\"", hex(&arena[*o..*o + *l]))).collect();
+    // gaps between the slices must still hold the pattern
+    let mut canary = true;
+    let mut covered = vec![false; total];
+    for (o, l) in offs.iter().zip(&lens) {
+        for k in *o..*o + *l {
+            covered[k] = true;
+        }
+    }
+    for k in 0..total {
+        if !covered[k] && arena[k] != pat(seed, BBASE + k as u64) {
+            canary = false;
+        }
+    }
+    format!("{{\"res\":{},\"slices\":[{}],\"file\":\"{}\",\"pos\":{},\"canary\":{}}}", res, slices.join(","), hex(&fc), newpos, canary)
+}
+
+// ---- FileVolatileBuf / borrow_as_buf / from_mut_slice: plain bookkeeping views ---------------------------------
+fn fvbuf_case(line: &str) -> String {
+    use fuse_backend_rs::file_buf::FileVolatileBuf;
+    let seed = num(kv(line, "seed"));
+    let cap = num(kv(line, "size")) as usize;
+    let init = num(kv(line, "addr")) as usize;
+    let newsize = num(kv(line, "count")) as usize;
+    let mut buf: Vec<u8> = (0..cap as u64).map(|o| pat(seed, BBASE + o)).collect();
+    let r = catch_unwind(AssertUnwindSafe(|| {
+        let a = unsafe { FileVolatileBuf::new(&mut buf) };
+        let mut b = unsafe { FileVolatileBuf::new_with_data(&mut buf, init) };
+        let c = unsafe { FileVolatileBuf::from_raw_ptr(buf.as_mut_ptr(), init, cap) };
+        let head = b.io_slice().to_vec();
+        let tail_len = b.io_slice_mut().len();
+        unsafe { b.set_size(newsize) };
+        let s = unsafe { FileVolatileSlice::from_mut_slice(&mut buf) };
+        let bt = unsafe { s.borrow_as_buf(true) };
+        let bf = unsafe { s.borrow_as_buf(false) };
+        let nums = [a.len(), a.cap(), a.is_empty() as usize, c.len(), c.cap(), head.len(), tail_len, b.len(), s.len(), s.is_empty() as usize, bt.len(), bt.cap(), bf.len(), bf.cap(),
+                    (c.io_slice_mut().as_ptr() as usize) - (buf.as_ptr() as usize)];
+        let l: Vec<String> = nums.iter().map(|x| x.to_string()).collect();
+        format!("[\"ok\",[{}],\"{}\"]", l.join(","), hex(&head))
+    }));
+    match r {
+        Ok(s) => format!("{{\"res\":{}}}", s),
+        Err(_) => "{\"res\":[\"panic\"]}".to_string(),
+    }
+}
+
+// ---- fixed probes: Writer::Noop, Reader::default, flush, Clone ----------------------------------------------------
+fn misc_case(_line: &str) -> String {
+    let mut o: Vec<String> = Vec::new();
+    let e = |r: io::Result<usize>| match r {
+        Ok(n) => format!("ok{}", n),
+        Err(e) => format!("err{}", e.raw_os_error().unwrap_or(-1)),
+    };
+    let mut nw: Writer<'_, ()> = Writer::Noop(std::marker::PhantomData);
+    o.push(format!("\"noop_write\":\"{}\"", e(nw.write(&[1, 2]))));
+    o.push(format!("\"noop_write_vectored\":\"{}\"", e(nw.write_vectored(&[IoSlice::new(&[1])]))));
+    o.push(format!("\"noop_flush\":\"{}\"", e(nw.flush().map(|_| 0))));
+    o.push(format!("\"noop_write_from_at\":\"{}\"", e(nw.write_from_at(&mut memfd(&[1, 2, 3]), 2, 0))));
+    o.push(format!("\"noop_split\":\"{}\"", if nw.split_at(0).is_err() { "err" } else { "ok" }));
+    o.push(format!("\"noop_avail\":{}", nw.available_bytes()));
+    o.push(format!("\"noop_written\":{}", nw.bytes_written()));
+    o.push(format!("\"noop_commit\":\"{}\"", e(nw.commit(None))));
+    #[cfg(feature = "async-io")]
+    {
+        o.push(format!("\"noop_async_write\":\"{}\"", e(aio::block_on(nw.async_write(&[1])))));
+        o.push(format!("\"noop_async_write2\":\"{}\"", e(aio::block_on(nw.async_write2(&[1], &[2])))));
+        o.push(format!("\"noop_async_write3\":\"{}\"", e(aio::block_on(nw.async_write3(&[1], &[2], &[3])))));
+        o.push(format!("\"noop_async_write_all\":\"{}\"", e(aio::block_on(nw.async_write_all(&[1])).map(|_| 0))));
+        o.push(format!("\"noop_async_commit\":\"{}\"", e(aio::block_on(nw.async_commit(None)))));
+        let af = aio::afile(None, vec![1, 2, 3], usize::MAX, false);
+        o.push(format!("\"noop_async_write_from_at\":\"{}\"", e(aio::block_on(nw.async_write_from_at(&af, 2, 0)))));
+    }
+    let mut dr: Reader<'_, ()> = Reader::default();
+    let mut b1 = [0u8; 1];
+    o.push(format!("\"default_reader\":[{},{},\"{}\",\"{}\",\"{}\",\"{}\"]", dr.available_bytes(), dr.bytes_read(), e(dr.read(&mut b1)),
+        if dr.read_exact(&mut b1).is_err() { "eof" } else { "ok" }, if dr.split_at(0).is_ok() { "ok" } else { "err" }, if dr.split_at(1).is_ok() { "ok" } else { "err" }));
+    // Clone: independent cursors over the same memory
+    let mut buf: Vec<u8> = (0..8u8).collect();
+    let mut r1: Reader<'_, ()> = Reader::from_fuse_buffer(FuseBuf::new(&mut buf)).unwrap();
+    let mut t = [0u8; 3];
+    r1.read_exact(&mut t).unwrap();
+    let mut r2 = r1.clone();
+    let mut u = [0u8; 2];
+    r1.read_exact(&mut u).unwrap();
+    let mut v = [0u8; 4];
+    r2.read_exact(&mut v).unwrap();
+    o.push(format!("\"reader_clone\":[\"{}\",\"{}\",{},{},{},{}]", hex(&u), hex(&v), r1.available_bytes(), r1.bytes_read(), r2.available_bytes(), r2.bytes_read()));
+    // flush on a real FuseDevWriter refuses; on VirtioFsWriter it is covered by the F op of the virtio cases
+    let mut fb = vec![0u8; 8];
+    let mut fw = FuseDevWriter::<()>::new(-1, &mut fb).unwrap();
+    o.push(format!("\"fusedev_flush\":\"{}\"", if fw.flush().is_err() { "err" } else { "ok" }));
+    format!("{{{}}}", o.join(","))
+}
+
 fn main() {
     let args: Vec<String> = std::env::args().collect();
     if args.len() < 3 {
@@ -1345,6 +1489,9 @@ fn main() {
             "fusedev" => fusedev_case(line),
             "bytes" => bytes_case(line),
             "server" => server_case(line),
+            "ft" => ft_case(line),
+            "fvbuf" => fvbuf_case(line),
+            "misc" => misc_case(line),
             k => panic!("subcommand {}", k),
         }));
         match r {
